@@ -142,16 +142,6 @@ Definition prop_view (stable : bool) (o : cview) : Z :=
   else if stable && negb (o_visit_ok o) then 6
   else 0.
 
-(* the same without clause 1 (what holds of every history, see c05_ledger_refuted) *)
-Definition prop_view_weak (stable : bool) (o : cview) : Z :=
-  if negb (forallb v_bounds_ok (o_infos o)) then 2
-  else if negb (forallb v_once_ok (o_infos o)) then 5
-  else if negb (forallb v_matchable_def (o_infos o)) then 7
-  else if stable && negb (o_sound o) then 3
-  else if stable && negb (o_complete o) then 4
-  else if stable && negb (o_visit_ok o) then 6
-  else 0.
-
 (* ==================================================================================== *)
 (* C. decision procedures for the pure streams                                           *)
 
